@@ -2,6 +2,8 @@ import DracoProps.C18
 import DracoProps.C18Kd
 import DracoProps.C03Eb
 import DracoProofs.EbAlloc
+import DracoProofs.EbConnInv
+import DracoProofs.EbTraversalFuel
 /-
   C18 — decoder memory on the Edgebreaker path (staging file of the Edgebreaker slice, to be merged into
   DracoProps/C18.lean).
@@ -75,6 +77,64 @@ theorem guard_flags (L d n numFaces : Nat) (h : n ≤ 3 * numFaces) (hd : numFac
 /-- `num_attributes > 5 · remaining → false` (`DecodeAttributesDecoderData`) -/
 theorem guard_attribute_count (L d n : Nat) (h : n ≤ 5 * L) : 8 * n ≤ allocBound L d := by
   unfold allocBound allocA allocK; omega
+
+/-! ### the table-sized sites `ebX`: what bounds the tables
+
+  The four sites are sized by `view.numVertices` (point_ids), by the length of the traversal sequence (attribute.Reset,
+  portable_attribute) and by the number of points (indices_map).  Proved, for every input:
+    * `guard_vertex_table`: the vertex table of an accepted connectivity has at most `max_num_vertices` (= the declared
+      number of vertices) entries — the check `num_vertices() > max_num_vertices → -1` after the symbol loop; the
+      vertex compaction keeps the size, and the number of vertices it reports is at most that;
+    * `guard_sequence_length`: the traversal sequence (either traverser, any corner table) has at most
+      `view.numVertices` entries — a vertex is appended exactly when it is marked visited;
+    * `base_view_vertices`: a per-vertex decoder traverses the base table, whose `numVertices` is that vertex table.
+  Hence for a per-vertex attribute decoder point_ids, attribute.Reset and portable_attribute are within the linear
+  bound (`ebX_sites_per_vertex_linear`: at most 2040 bytes per declared vertex), and so is indices_map for a mesh
+  without attribute data (points = reported vertices).  NOT bounded: the same sites for a per-corner decoder (vertices
+  of the attribute corner table) and the points of a mesh with attribute seams: `≤ 3·faces` for a consistent
+  corner table, an invariant of the symbol loop that is not proved. -/
+
+/-- `num_vertices() > max_num_vertices → -1`; the compaction keeps the table size -/
+theorem guard_vertex_table (ci : Eb.ConnIn) (tr : Eb.Trav) (co : Eb.ConnOut) (h : Eb.connLoop ci tr = .ok co) :
+    co.vc.size ≤ ci.maxNumVertices ∧ co.numConnVerts ≤ co.vc.size := Eb.connLoop_vc ci tr co h
+
+/-- the traversal sequence of an attribute decoder is at most as long as the vertex table of its corner table -/
+theorem guard_sequence_length (mesh : Eb.Mesh) (dec : Eb.AttDecoder) (seq : Eb.SeqOut)
+    (h : Eb.sequenceOfDecoder mesh dec = .ok seq) :
+    seq.pointIds.size ≤ (Eb.viewOfDecoder mesh dec).numVertices ∧ seq.d2c.size = seq.pointIds.size := by
+  unfold Eb.sequenceOfDecoder at h
+  dsimp only at h
+  split at h
+  · exact Eb.maxPredictionDegree_size h
+  · exact Eb.depthFirst_size h
+
+/-- a per-vertex decoder works on the base corner table -/
+theorem base_view_vertices (mesh : Eb.Mesh) (dec : Eb.AttDecoder) (h : dec.cornerDecoder = false) :
+    (Eb.viewOfDecoder mesh dec).numVertices = mesh.vc.size := by
+  unfold Eb.viewOfDecoder Eb.TView.numVertices
+  simp [h]
+
+/-- the three sequence-sized sites for a per-vertex decoder: `n` entries (`n ≤` vertices `≤` declared), a stride of
+    at most 255 components of 8 bytes -/
+theorem ebX_sites_per_vertex_linear (L d nv n stride nc : Nat) (hn : n ≤ nv) (hnv : nv ≤ d) (hs : stride ≤ 2040)
+    (hnc : nc ≤ 255) :
+    4 * nv ≤ allocBound L d ∧ n * stride ≤ allocBound L d ∧ 4 * (n * nc) ≤ allocBound L d := by
+  unfold allocBound allocA allocK
+  have h1 : n * stride ≤ d * 2040 := Nat.mul_le_mul (Nat.le_trans hn hnv) hs
+  have h2 : n * nc ≤ d * 255 := Nat.mul_le_mul (Nat.le_trans hn hnv) hnc
+  omega
+
+/-- non-vacuity: a per-vertex depth-first decoder on one triangle: three entries for three vertices -/
+example :
+    let mesh : Eb.Mesh := { numFaces := 1, c2v := #[0, 1, 2], opp := #[Eb.inv, Eb.inv, Eb.inv], vc := #[0, 1, 2],
+                            atts := #[], faces := #[0, 1, 2], numPoints := 3, tags := 0 }
+    let dec : Eb.AttDecoder := { attDataId := -1, cornerDecoder := false, traversalMethod := 0 }
+    (Eb.sequenceOfDecoder mesh dec).toOption.map (·.pointIds.size) = some 3 ∧
+      (Eb.viewOfDecoder mesh dec).numVertices = 3 := by
+  decide +kernel
+
+example : 4 * 3 ≤ allocBound 70 4 ∧ 3 * 12 ≤ allocBound 70 4 ∧ 4 * (3 * 3) ≤ allocBound 70 4 :=
+  ebX_sites_per_vertex_linear 70 4 3 3 12 3 (by decide) (by decide) (by decide) (by decide)
 
 /-! ### the complete decoder -/
 
